@@ -23,6 +23,52 @@ def c06_units():
     ]
 
 
+import re as _re
+
+
+def c18_post(ctx):
+    """Parse ThreadSanitizer logs: every report with a library frame becomes a violation keyed by the
+    outermost smooth frames of its stacks (line numbers stripped); other reports make the run inconclusive."""
+    n_reports = 0
+    for text in ctx["tsan_reports"]:
+        for block in text.split("==================")[1:]:
+            if "WARNING: ThreadSanitizer" not in block:
+                continue
+            n_reports += 1
+            kind = _re.search(r"WARNING: ThreadSanitizer: ([^\n(]+)", block)
+            kind = kind.group(1).strip() if kind else "report"
+            # split into stacks (separated by blank lines); take the innermost frame inside the smooth headers of each stack
+            fns = []
+            for stack in block.split("\n\n"):
+                m = None
+                for line in stack.splitlines():
+                    mm = _re.search(r"#\d+ (.*?) (/repo/include/smooth/[\w/\.]+):\d+", line)
+                    if mm:
+                        m = mm
+                        break
+                if m:
+                    fn = m.group(1)
+                    for _ in range(12):  # strip nested template argument lists
+                        fn2 = _re.sub(r"<[^<>]*>", "", fn)
+                        if fn2 == fn:
+                            break
+                        fn = fn2
+                    fn = _re.sub(r"\(.*", "", fn).strip()
+                    name = "::".join(fn.split(" ")[-1].split("::")[-2:])
+                    fns.append(name + "@" + m.group(2).split("/smooth/")[-1])
+            fns = sorted(set(fns))
+            if fns:
+                site = "tsan[" + kind + ":" + "|".join(fns[:3]) + "]"
+                key = (site, "tsan")
+                v = ctx["viols"].setdefault(key, {"site": site, "stratum": "tsan", "stream": "concurrent.tsan", "case": 0, "count": 0, "err": "race",
+                                                  "tol": 0, "unit": "c18_tsan", "detail": {"report": block[:3500]}})
+                v["count"] += 1
+            else:
+                ctx["counters"]["C18.tsan_reports_without_library_frame"] = ctx["counters"].get("C18.tsan_reports_without_library_frame", 0) + 1
+    ctx["counters"]["C18.tsan_reports_total"] = n_reports
+    ctx["counters"]["C18.tsan_log_files"] = len(ctx["tsan_reports"])
+
+
 PROPS = {
     "C01": {
         "units": alg_units(1),
@@ -241,5 +287,21 @@ PROPS = {
                    "counters": ["C15.odeint_stage_values_observed", "C15.operations"]},
         "assumptions": ["shadow = long-double matrix products / inverses / scaling-and-squaring exponentials of the same program; n counts every operation executed so far "
                         "(odeint: stage evaluations + steps)", "verdict covers only the executions sampled"],
+    },
+    "C18": {
+        "units": [{"name": "c18_tsan", "src": "harness/c18.cpp", "flavor": "tsan", "shards": {"quick": 5, "thorough": 20}},
+                  {"name": "c18_plain", "src": "harness/c18.cpp", "flavor": "plain", "shards": {"quick": 4, "thorough": 16}}],
+        "post": c18_post,
+        "rule": "cases = concurrent runs: 2..16 threads (creation/join is the only synchronisation) each looping over const operations on shared const objects "
+                "(group/tangent functions on SE3/SO3/Galilei, rplus/rminus/dof on groups, VectorXd, std::vector<SO3>, variant, SubManifold, AnyManifold, "
+                "Spline/BSpline evaluation, crop, arclength, sparse derivative routines reading the shared inline patterns, independent diff::dr / "
+                "minimize / fit_spline / fit_bspline); the first case of every process performs the first use of all function-local statics inside the "
+                "racing threads; 5 (quick) / 20 (thorough) independent TSan processes + a plain build; results compared with a sequential run made "
+                "afterwards; distinct = distinct (process, case, thread count, scenario mask)",
+        "floors": {"min_evaluations": {"quick": 40, "thorough": 400},
+                   "cells": [r"tsan\.results_equal_sequential\|threads=16", r"tsan\.results_equal_sequential\|threads=2,", r"plain\.results_equal_sequential"],
+                   "counters": ["C18.overlapping_operation_pairs", "C18.ops.submanifold_anymanifold", "C18.ops.sparse_derivatives", "C18.ops.diff_minimize_fit", "C18.tsan_processes"]},
+        "assumptions": ["only the schedules the OS produced are observed (plus ThreadSanitizer's happens-before generalisation over them)",
+                        "ThreadSanitizer intercepts std::thread creation/join and the C++ static-initialisation guards; no other synchronisation exists in the monitor"],
     },
 }
